@@ -39,7 +39,7 @@ def bounds(tier):
     return dict(bus_word_depth=5 if tier == "thorough" else 4, deviations=2 if tier == "thorough" else 1, estimator_word_depth=5 if tier == "thorough" else 4)
 
 
-SUB_KINDS = ["plain_a", "plain_b", "relay_ab"]
+SUB_KINDS = ["plain_a", "plain_b", "relay_ab", "fwd_ac"]  # fwd_ac: republishes the very same message object on topic c (same type)
 EVENTS = ["pub_a", "pub_b", "wrong_a", "set_p", "set_logdt", "run1", "run2"]
 
 
@@ -49,6 +49,8 @@ def topologies(tier):
     for n in range(0, 4):
         for c in itertools.combinations_with_replacement(range(3), n):
             sub_sets.append(c)
+    # forwarding of the same message object to a third topic, alone and next to every other kind
+    sub_sets += [(3,), (3, 0), (0, 3), (3, 1), (3, 2), (2, 3), (3, 3), (0, 3, 1), (3, 2, 0)]
     for subs in sub_sets:
         for logger in (True, False):
             tops.append(dict(subs=list(subs), logger=logger, nodes=[True, False], periods=(1, 2)))
@@ -69,9 +71,9 @@ class Bus:
         sched.ControlledCore.chooser = chooser
         sched.ControlledCore.observer = self._after_step
         self.core = c = sched.ControlledCore()
-        self.pub = {"a": uros.Publisher(c, "a", msgs.Imu), "b": uros.Publisher(c, "b", msgs.Mag)}
-        self.ref_pubs = {"a": [], "b": []}  # reference model: order of publish calls per topic
-        self.latest = {"a": None, "b": None}
+        self.pub = {"a": uros.Publisher(c, "a", msgs.Imu), "b": uros.Publisher(c, "b", msgs.Mag), "c": uros.Publisher(c, "c", msgs.Imu)}
+        self.ref_pubs = {"a": [], "b": [], "c": []}  # reference model: order of publish calls per topic
+        self.latest = {"a": None, "b": None, "c": None}
         self.inbox = []
         self.sub_topic = []
         self.next_id = 1.0
@@ -82,12 +84,15 @@ class Bus:
             self.sub_topic.append(topic)
             if kind == "relay_ab":
                 cb = (lambda i: lambda msg: self._relay(i, msg))(i)
+            elif kind == "fwd_ac":
+                cb = (lambda i: lambda msg: self._forward(i, msg))(i)
             else:
                 cb = (lambda i, topic: lambda msg: self.inbox[i].append(float(msg.data["time"])))(i, topic)
             uros.Subscriber(c, topic, msgs.Imu if topic == "a" else msgs.Mag, cb)
         self.params = []
         for n, follows in enumerate(top["nodes"]):
-            p = uros.Param(c, "n%d/p" % n, 1.0, "f8")
+            # node 0 declares its default with an integer literal (as the estimator does for mag_decl), the others with a float
+            p = uros.Param(c, "n%d/p" % n, 1 if n == 0 else 1.0, "f8")
             self.params.append((p, follows))
             if follows:
                 uros.Subscriber(c, "params", msgs.Params, (lambda p: lambda msg: p.update())(p))
@@ -125,6 +130,10 @@ class Bus:
         m.data["time"] = 1000.0 + float(msg.data["time"])
         self.do_publish("b", m)
 
+    def _forward(self, i, msg):
+        self.inbox[i].append(float(msg.data["time"]))
+        self.do_publish("c", msg)
+
     def _periodic(self, topic, period):
         while True:
             self.do_publish(topic)
@@ -149,10 +158,10 @@ class Bus:
         n = len(self.logger.data_list)
         while self.rows_seen < n:
             row = self.logger.data_list[self.rows_seen]
-            self.ref_rows.append(dict(time=float(c.now), a=self.latest["a"], b=self.latest["b"]))
-            got = dict(time=float(row["time"]), a=float(row["a"]["time"]), b=float(row["b"]["time"]))
+            self.ref_rows.append(dict(time=float(c.now), a=self.latest["a"], b=self.latest["b"], c=self.latest["c"]))
+            got = dict(time=float(row["time"]), a=float(row["a"]["time"]), b=float(row["b"]["time"]), c=float(row["c"]["time"]))
             want = self.ref_rows[-1]
-            for k in ("a", "b"):
+            for k in ("a", "b", "c"):
                 w = want[k]
                 if (w is None and not math.isnan(got[k])) or (w is not None and got[k] != w):
                     self.fails.append(("logger_row_holds_latest_message_per_topic", dict(row=self.rows_seen, topic=k, logged=got[k], latest=w, time=want["time"])))
@@ -420,6 +429,100 @@ def explore_est(case):
     return res
 
 
+# -----------------------------------------------------------------------------------------------------------
+# estimator node: parameter values set on the core reach the equations
+# -----------------------------------------------------------------------------------------------------------
+EST_PARAMS = ["std_mag", "std_accel", "std_accel_omega", "std_gyro", "sn_gyro_rw", "mag_decl", "beta_mag_c", "beta_accel_c", "g"]
+EST_VALUES = [0.3, 2.75, 3]
+EST_DEFAULTS = dict(std_mag=2.5e-3, std_accel=35.0e-3, std_accel_omega=0, std_gyro=1e-3, sn_gyro_rw=1e-5, mag_decl=0, beta_mag_c=6.6, beta_accel_c=9.2, g=9.8)
+# which parameters each equation receives, in call order after the state / measurement arguments
+EST_USES = dict(initialize=["mag_decl"], predict=["std_gyro", "sn_gyro_rw"], correct_accel=["g", "std_accel", "std_accel_omega", "beta_accel_c"],
+                correct_mag=["mag_decl", "std_mag", "beta_mag_c"])
+
+
+def run_estparams(initialize, sets):
+    """sets: list of (param, value); between the sets a round of sensor messages.  Returns list of (equation, {param: value seen}, {param: expected})"""
+    c = uros.Core()
+    pub_imu = uros.Publisher(c, "imu", msgs.Imu)
+    pub_mag = uros.Publisher(c, "mag", msgs.Mag)
+    seen = []
+    ref = dict(EST_DEFAULTS)
+    x0, W0 = np.zeros(6), np.eye(6)
+
+    def rec(eq, vals):
+        seen.append((eq, dict(zip(EST_USES[eq], [float(v) for v in vals])), {k: float(ref[k]) for k in EST_USES[eq]}))
+
+    eqs = dict(constants=lambda: dict(x0=x0, W0=W0),
+               initialize=lambda g_b, B_b, decl: (rec("initialize", [decl]), (np.zeros(6), 0))[1],
+               predict=lambda t, x, W, om, sg, sn, dt: (rec("predict", [sg, sn]), (x, W))[1],
+               get_state=lambda x: (np.array([1.0, 0, 0, 0]), np.zeros(3), np.zeros(3)),
+               correct_accel=lambda x, W, y, g, om, sa, sao, bc: (rec("correct_accel", [g, sa, sao, bc]), (x, W, 0.0, np.zeros(2), np.zeros(2), 0.0))[1],
+               correct_mag=lambda x, W, y, decl, sm, bc: (rec("correct_mag", [decl, sm, bc]), (x, W, 0.0, np.zeros(1), np.zeros(1), 0.0))[1])
+    with contextlib.redirect_stdout(io.StringIO()):
+        AttitudeEstimator(c, "mrp", eqs, initialize)
+        c.init_params()
+        t = 0.0
+
+        def sensors():
+            nonlocal t
+            for sensor in ("mag", "imu", "mag", "imu"):
+                t += 0.02
+                m = msgs.Imu() if sensor == "imu" else msgs.Mag()
+                m.data["time"] = t
+                if sensor == "imu":
+                    m.data["gyro"] = [0.1, 0.2, 0.3]
+                    m.data["accel"] = [0, 0, -9.8]
+                    pub_imu.publish(m)
+                else:
+                    m.data["mag"] = [0.1, 0, 0]
+                    pub_mag.publish(m)
+        sensors()
+        for name, val in sets:
+            c.set_param("mrp/" + name, val)
+            ref[name] = val
+            sensors()
+    return seen
+
+
+def explore_estparams(case):
+    initialize, first = case["initialize"], case["first"]
+    res = core.Result()
+    singles = [(p, v) for p in EST_PARAMS for v in EST_VALUES]
+    words = [[singles[first]]] + [[singles[first], s2] for s2 in singles]
+    for w in words:
+        res.count("evaluations")
+        res.count("transitions", len(w))
+        res.count("traces_validated_against_impl", len(w))
+        try:
+            seen = run_estparams(initialize, w)
+        except Exception as ex:
+            res.fail(site="AttitudeEstimator", clause="no_exception", cls="params", detail=dict(sets=[list(x) for x in w], error="%s: %s" % (type(ex).__name__, str(ex)[:200])), sub="estparams", case=case)
+            continue
+        res.nontrivial.add(hash((initialize, tuple(w))))
+        res.outcomes.add(hash(tuple((e, tuple(sorted(g.items()))) for e, g, _ in seen)))
+        if not {"predict", "correct_accel", "correct_mag"} <= {e for e, _, _ in seen}:
+            raise core.HarnessError("estimator parameter harness did not reach every equation")
+        for eq, got, want in seen:
+            bad = [k for k in want if got.get(k) != want[k]]
+            if bad:
+                res.fail(site="AttitudeEstimator", clause="parameter_set_on_core_reaches_equations", cls=bad[0],
+                         detail=dict(sets=[list(x) for x in w], equation=eq, received=got, expected=want), sub="estparams", case=case)
+                break
+    if first == 0:
+        res.samples.append(dict(estimator_parameter_words=len(words), initialize=initialize))
+    return res
+
+
+class _EstP:
+    chunks = 1
+
+    def cases(self, tier, seed):
+        return [dict(sub="estparams", tier=tier, initialize=i, first=f) for i in (True, False) for f in range(len(EST_PARAMS) * len(EST_VALUES))]
+
+    def run(self, case):
+        return explore_estparams(case)
+
+
 class _Bus:
     chunks = 2
 
@@ -440,5 +543,5 @@ class _Est:
         return explore_est(case)
 
 
-SUBCHECKS = {"bus": _Bus(), "est": _Est()}
-REPLAY = {"bus": lambda c: explore_bus(c).fails, "est": lambda c: explore_est(c).fails}
+SUBCHECKS = {"bus": _Bus(), "est": _Est(), "estparams": _EstP()}
+REPLAY = {"bus": lambda c: explore_bus(c).fails, "est": lambda c: explore_est(c).fails, "estparams": lambda c: explore_estparams(c).fails}
